@@ -2,12 +2,14 @@ package main
 
 import (
 	"fmt"
+	"go/ast"
 	"go/types"
 	"os"
 	"path/filepath"
 	"sort"
 	"strings"
 
+	"golang.org/x/tools/go/ast/astutil"
 	"golang.org/x/tools/go/packages"
 	"golang.org/x/tools/go/ssa"
 	"golang.org/x/tools/go/ssa/ssautil"
@@ -74,6 +76,21 @@ func Load(overlay map[string][]byte) (*Program, error) {
 			P.SSA[p.PkgPath] = spkgs[i]
 		}
 	}
+	// stable names for closures in package initialisers: init$<Var>[.<Key>]
+	for i, p := range pkgs {
+		if spkgs[i] == nil {
+			continue
+		}
+		initFn := spkgs[i].Func("init")
+		if initFn == nil {
+			continue
+		}
+		for _, an := range initFn.AnonFuncs {
+			if name := initClosureName(p, an); name != "" {
+				closureAlias[an] = name
+			}
+		}
+	}
 	for _, sp := range P.SSA {
 		for _, mem := range sp.Members {
 			switch m := mem.(type) {
@@ -127,9 +144,43 @@ func shortPkg(path string) string {
 // QualName gives the stable, line-independent name of a function:
 // "socket.(*message).Reset", "erpc.(*session).write", "socket.minus",
 // closures: "erpc.(*peer).Dial$1".
+var closureAlias = map[*ssa.Function]string{}
+
+// initClosureName names a function literal of a package-level variable
+// initialiser after the variable (and composite-literal key) it initialises.
+func initClosureName(p *packages.Package, fn *ssa.Function) string {
+	lit, ok := fn.Syntax().(*ast.FuncLit)
+	if !ok {
+		return ""
+	}
+	for _, f := range p.Syntax {
+		if f.Pos() > lit.Pos() || lit.End() > f.End() {
+			continue
+		}
+		path, _ := astutil.PathEnclosingInterval(f, lit.Pos(), lit.End())
+		name := ""
+		for _, n := range path {
+			switch x := n.(type) {
+			case *ast.KeyValueExpr:
+				if id, ok := x.Key.(*ast.Ident); ok && name == "" {
+					name = "." + id.Name
+				}
+			case *ast.ValueSpec:
+				if len(x.Names) > 0 {
+					return "init$" + x.Names[0].Name + name
+				}
+			}
+		}
+	}
+	return ""
+}
+
 func QualName(fn *ssa.Function) string {
 	if fn == nil {
 		return "<nil>"
+	}
+	if a, ok := closureAlias[fn]; ok {
+		return shortPkg(fn.Pkg.Pkg.Path()) + "." + a
 	}
 	if fn.Parent() != nil {
 		return QualName(fn.Parent()) + "$" + strings.TrimPrefix(fn.Name(), fn.Parent().Name()+"$")
